@@ -206,7 +206,7 @@ func StringRoutes() {
 	e := subst(exprWrappers[wi], src)
 	if vrt.Tier() > 0 {
 		wj := vrt.Choice(len(exprWrappers)) // depth 2
-		if wholeSlice || wi == 7 {
+		if wholeSlice || wi == 7 || wi == 8 { // [IN] and [[IN]][0] are slices: string + slice prints "[...]"
 			vrt.Assume(wj != 1 && wj != 2 && wj != 11)
 		}
 		e = subst(exprWrappers[wj], e)
